@@ -846,10 +846,10 @@ Section Renaming.
       apply andb_true_iff in Hc. destruct Hc as [Hc C3]. apply andb_true_iff in Hc. destruct Hc as [C1 C2].
       pose proof (vardecls_targets h ((n, true, lexdecls h) :: e) fs n true (S n)) as Hvh. rewrite Eh in Hvh. cbn [fst] in Hvh.
       rewrite (H12 C1), (B12 C2), (K12 C3). cbn [andb]. apply andb_true_iff. split.
-      + rewrite H5, B2. apply disj_newname; [exact HDh| | |].
-        * rewrite Hnh. exact (incl_app_l _ _ _ Hinc).
+      + rewrite H2, B2. apply disj_map_f_early.
+        * intros x Hx. apply (Dt_in rh); [exact HDh|apply Hlh; exact Hx].
         * intros x Hx. apply (Dt_in rb); [exact HDb|apply Hlb; exact Hx].
-        * rewrite Hnh. exact (disjointb_spec _ _ C4).
+        * exact (disjointb_spec _ _ C4).
       + rewrite H3, H2, B2, disjointb_app_r. pose proof (disjointb_spec _ _ C5) as C5'.
         apply andb_true_iff. split; apply disj_map_f_early.
         * intros x Hx. apply (Dt_in rh); [exact HDh|apply Hvh; exact Hx].
